@@ -166,7 +166,7 @@ def render(sk, incdir, variant=0):
     l = "  flags[7] = flags[7] + 0; /* plain statement of skeleton %d */" % k
     lines.append(l)
     exp["plain"].append(l)
-    lines += ["#ifdef MARK_%d" % k, "  flags[5] = 1;", "#endif", "#ifdef INC_%d" % k, "  flags[6] = 1;", "#endif", "#ifdef INCR_%d" % k, "  flags[4] = 1;", "#endif", "#ifdef INC2_%d" % k, "  flags[8] = INC2_%d;" % k, "#endif", "}"]
+    lines += ["#ifdef MARK_%d" % k, "  flags[5] = 1;", "#endif", "#ifdef INC_%d" % k, "  flags[6] = 1;", "#endif", "#ifdef INCR_%d" % k, "  flags[4] = 1;", "#endif", "#ifdef INC2_%d" % k, "  flags[8] = INC2_%d;" % k, "#endif", "#ifdef C16_EXTRA_HEADER", "  flags[9] = 1;", "#endif", "}"]
     exp["plain"] += ["#ifdef MARK_%d" % k, "  flags[5] = 1;", "#endif", "#ifdef INC_%d" % k, "  flags[6] = 1;", "}"]
     return lines, exp
 
@@ -394,7 +394,9 @@ def run_shard(sks, tier, seed):
             os.chdir(work)
             try:
                 if target.startswith("cpu"):
-                    ctx.add_kernels(sources=[Path(src_path)], kernels=kernel_descr(names, bs), extra_compile_args=("-O0", "-w"), extra_link_args=())
+                    # the first build of the process is given an extra header: it belongs to that build only
+                    xh = dict(extra_headers=["#define C16_EXTRA_HEADER 1"]) if label == "cpu_serial" else {}
+                    ctx.add_kernels(sources=[Path(src_path)], kernels=kernel_descr(names, bs), extra_compile_args=("-O0", "-w"), extra_link_args=(), **xh)
                 else:
                     ctx.add_kernels(sources=[Path(src_path)], kernels=kernel_descr(names, bs))
             except Exception as e:
@@ -433,6 +435,8 @@ def run_shard(sks, tier, seed):
                         bad("C16.runs", "kernel-call-raises:" + type(e).__name__, sk, "%s n=%d: %r" % (label, n, e), target=target, n=n)
                         continue
                     r = check_counts(exp, n, c0, c1, fl, target, label + (" block=%d" % bs if bs else ""))
+                    if not r and n >= 1 and int(fl[9]) != (1 if label == "cpu_serial" else 0):
+                        r = ("extra-header", "the header given to the cpu_serial build only is %s in the %s build (variant %d)" % ("active" if fl[9] else "missing", label, variant))
                     if r:
                         bad("C16." + r[0], r[0], sk, r[1], target=target, n=n, block=bs)
                     else:
